@@ -66,6 +66,7 @@ def zip2(xs):
 
 G1 = 100
 G2 = 200
+GN = None
 '''
 
 IND = "    "
@@ -628,7 +629,7 @@ def functions(flags=None, want_gen=None):
         def int_expr(bound, depth=0):
             opts = ["int", "int", "var", "var", "var"]
             if depth < 2:
-                opts += ["bin", "bin", "E", "E", "cmp", "len", "ifexp", "lam", "walrus", "neg", "idxxs", "G", "call"]
+                opts += ["bin", "bin", "E", "E", "cmp", "len", "ifexp", "lam", "walrus", "neg", "idxxs", "G", "GN", "call"]
                 if has_o:
                     opts.append("attr")
                 if closure:
@@ -670,6 +671,9 @@ def functions(flags=None, want_gen=None):
                 return ("idx", "xs", ("int", draw(st.integers(0, 2))))
             if k == "G":
                 return ("var", draw(st.sampled_from(["G1", "G2"])))
+            if k == "GN":
+                # a global whose value is None (the `HOOK = None` idiom)
+                return ("ifexp", ("var", "GN"), ("int", 1), ("int", draw(st.integers(0, 3))))
             if k == "attr":
                 return ("attr", "o", "x")
             if k == "cl":
